@@ -311,7 +311,10 @@ def ledger_units():
                            ('queried-date-is-a-day', lambda c: c['date'] == midnight(c['date']))],
               'ensures': [('C03/report-total-agrees-with-its-rows', lambda c: c.eng.coerce(c.result, REAL) == tot(rows(c), c['resource'], dayidx(c['date'])))]}
         return Engine(F, 'ResourceUsageReport.reserved', {}, SCHED_CLASSES, fc, plugins=[LedgerPlugin(specs)]), LEDGER_AX
-    return [Unit('_ResourceUsage.reserve', F, build_reserve, ['C03', 'C04']), Unit('_ResourceUsage.reserved', F, build_reserved, ['C03']),
+    def build_get_key():
+        fc = {'sig': {'date': TIME}, 'ensures': [('C03,C04,C08,C09/day-key-is-the-midnight-of-the-date', lambda c: And(c.result.e == midnight(c['date']), c.result.e <= c['date'], c['date'] < c.result.e + 86400))]}
+        return Engine(F, '_ResourceUsage.__get_key', {}, {}, fc), []
+    return [Unit('_ResourceUsage.__get_key', F, build_get_key, ['C03', 'C04', 'C08', 'C09']), Unit('_ResourceUsage.reserve', F, build_reserve, ['C03', 'C04']), Unit('_ResourceUsage.reserved', F, build_reserved, ['C03']),
             Unit('ResourceUsageReport.reserved', F, build_report_reserved, ['C03'])]
 
 
